@@ -364,15 +364,15 @@ impl<'a, L> Engine<'a, L> {
                 {
                     let mut iter = dt_str[NS_18N.len()..].splitn(2, '_');
                     let tag = iter.next().unwrap();
-                    let dir = iter.next();
-                    push_entry(&mut obj, "@value", txt.into());
-                    if !tag.is_empty() {
-                        push_entry(&mut obj, "@language", tag.into());
-                    }
-                    if let Some(dir) = dir {
-                        if !dir.is_empty() {
-                            push_entry(&mut obj, "@direction", dir.into());
+                    let dir = iter.next().unwrap_or("");
+                    // only use '@direction' if it would be converted back to the same datatype
+                    // (otherwise, a plain '@type' is used below)
+                    if is_direction(dir) && (tag.is_empty() || is_normalized_language(tag)) {
+                        push_entry(&mut obj, "@value", txt.into());
+                        if !tag.is_empty() {
+                            push_entry(&mut obj, "@language", tag.into());
                         }
+                        push_entry(&mut obj, "@direction", dir.into());
                     }
                 }
                 if dt_str == RDF_JSON {
